@@ -95,7 +95,17 @@ def main():
     ap = argparse.ArgumentParser()
     ap.add_argument("group"); ap.add_argument("--k", type=int, default=24); ap.add_argument("--seed", type=int, default=1)
     ap.add_argument("--workers", type=int, default=2); ap.add_argument("--kinds", default="")
+    ap.add_argument("--only", default="", help="comma separated mutant ids (file:id allowed) to run against --checks; results are printed, not stored")
+    ap.add_argument("--checks", default="")
     a = ap.parse_args()
+    if a.only:
+        want = set(a.only.split(","))
+        if a.checks:
+            GROUPS[a.group]["checks"] = a.checks.split(",")
+        for m in gen(a.group, None):
+            if m["id"] in want:
+                print(json.dumps(run_one(a.group, m), indent=1))
+        return
     kinds = set(a.kinds.split(",")) if a.kinds else None
     muts = gen(a.group, kinds)
     rnd = random.Random(a.seed)
